@@ -15,18 +15,19 @@ type c16Type struct {
 	Mask     int
 	WithUses bool
 	Name     string
-	New      func() any // pointer to struct (valid controller)
+	New      func(tag string) any // pointer to struct (valid controller); the tag is per-instance state the actions report
 	Value    func() any // the struct by value (must be rejected)
 }
 
 var c16Actions = []string{"index", "create", "store", "show", "edit", "update", "delete"}
 
 // c16Act is the body of every generated action method.
-func c16Act(c *rux.Context, action string) {
+func c16Act(c *rux.Context, tag, action string) {
 	rec := recOf(c)
 	rec.Route = action
 	rec.Params = copyParams(c.Params)
 	rec.Ev("action:%s", action)
+	rec.Ev("instance:%s", tag)
 	c.WriteString(action + ":" + c.Param("id"))
 }
 
@@ -50,6 +51,13 @@ func c16NewUses() map[string][]rux.HandlerFunc {
 		low := strings.ToLower(a)
 		m[a] = []rux.HandlerFunc{func(c *rux.Context) {
 			recOf(c).Ev("mw:%s", low)
+		}}
+	}
+	// keys that are no action names (they differ from one by case, or name nothing): never to be attached
+	for _, k := range []string{"index", "SHOW", "eDit", "create", "Destroy", ""} {
+		k := k
+		m[k] = []rux.HandlerFunc{func(c *rux.Context) {
+			recOf(c).Ev("mw:NOT-AN-ACTION-KEY(%q)", k)
 		}}
 	}
 	return m
@@ -81,6 +89,15 @@ var c16Table = []c16Row{
 	{"edit", []string{"GET"}, []Seg{{Var: idVar}, {Pre: "edit"}}},
 	{"update", []string{"PUT", "PATCH"}, []Seg{{Var: idVar}}},
 	{"delete", []string{"DELETE"}, []Seg{{Var: idVar}}},
+}
+
+func hasEvent(evs []string, want string) bool {
+	for _, e := range evs {
+		if e == want {
+			return true
+		}
+	}
+	return false
 }
 
 func runC16(e *Env) {
@@ -130,7 +147,7 @@ func runC16(e *Env) {
 		var resMW []rux.HandlerFunc
 		var wantGroupEv []string
 		variant := int(t.Idx/combos+t.Idx) % 4
-		reg := func() { router.Resource(base, ct.New(), resMW...) }
+		reg := func() { router.Resource(base, ct.New("mount0"), resMW...) }
 		prefix := ""
 		if inGroup {
 			prefix = "/grp"
@@ -169,7 +186,7 @@ func runC16(e *Env) {
 		}
 		for mi, full := range mounts {
 			if mi == 1 {
-				if pv, panicked := catch(func() { router.Resource("/second/", ct.New()) }); panicked {
+				if pv, panicked := catch(func() { router.Resource("/second/", ct.New("mount1")) }); panicked {
 					t.Fail("resource-panics", "second Resource(\"/second/\", &%s{}) panicked: %v", ct.Name, pv)
 					return
 				}
@@ -247,7 +264,13 @@ func runC16(e *Env) {
 							t.Fail(sig, "%s{%s} base %q: %s %s must be answered by %s (body %q); observed action %q body %q status %d", ct.Name, maskDesc(ct.Mask), base, method, path, action, wantBody, rec.Route, rec.Body.String(), rec.Status())
 							return
 						}
-						// marker middleware: exactly the answering action's (if the controller has Uses)
+						// the action ran on the controller instance that was handed to Resource for this mount
+					wantInst := fmt.Sprintf("instance:mount%d", mi)
+					if !hasEvent(rec.Events, wantInst) {
+						t.Fail("action-of-another-instance", "%s{%s} base %q: %s %s was answered by %s, but not by the controller instance given to this Resource call (want event %q, events %v)", ct.Name, maskDesc(ct.Mask), base, method, path, action, wantInst, rec.Events)
+						return
+					}
+					// marker middleware: exactly the answering action's (if the controller has Uses)
 						var seen []string
 						var groupEv []string
 						for _, ev := range rec.Events {
